@@ -38,11 +38,11 @@ ASSUMPTIONS = [
 ]
 BOUNDS = {
     "quick": "every index column over {a,b,c} (up to renaming) with 0..3 rows plus three 4-row tables, and four tables derived as t0 + u after name lookups on t0; every selector of the generated family (positions, lists, all masks, 14 regex forms, name spans, 4 value-range forms with symbolic bounds); "
-             "composition law for every pair (s1 any form, s2 from a 9-element subset); value ranges over fixed-width numpy columns (10 dtypes, every column of 1..3 cells over a 3-4 value pool of type extremes and wrap-around values, plus 5-8 row sorted/unsorted/constant columns): symbolic bounds decided by z3, and every pair of concrete bounds from the pool",
+             "composition law for every pair (s1 any form, s2 from a 9-element subset); 5 tables whose names interact with the regular-expression semantics (case twins, names that match siblings when read as a pattern, regex-special characters) with every name / NAME / name::k / name>>1 as selector; value ranges over fixed-width numpy columns (10 dtypes, every column of 1..3 cells over a 3-4 value pool of type extremes and wrap-around values, plus 5-8 row sorted/unsorted/constant columns): symbolic bounds decided by z3, and every pair of concrete bounds from the pool",
     "thorough": "0..5 rows, composition for all pairs",
 }
 OUTSIDE = "tables with more than 5 rows (8 for the typed columns); user regular expressions beyond the generated family; float columns (reals) in ranges other than NaN cells, NaN bounds and the typed float32/float64 pools; typed cells outside the pools"
-REQUIRED_CLASSES = ["range_checked", "nan_cell", "regex_checked", "composition", "indices_mask", "keyerror", "empty_result", "typed_range_symbolic_bounds", "typed_range_concrete_bounds"]
+REQUIRED_CLASSES = ["range_checked", "nan_cell", "regex_checked", "composition", "indices_mask", "keyerror", "empty_result", "typed_range_symbolic_bounds", "typed_range_concrete_bounds", "names_as_selectors"]
 PROFILE_CASES = 6
 TASKS_PER_CHILD = 200
 ALPHA = ["a", "b", "c"]
@@ -331,9 +331,73 @@ def run_typed(ex, case):
                     return
 
 
+SPECIAL_TABLES = [
+    # names that differ only in case; a name that, read as a regular expression, also matches a sibling;
+    # a name that is a prefix of another; names with characters that are special in regular expressions
+    ["q1", "d1", "Q1", "q1", "d2"], ["a.c", "abc", "d", "a.c"], ["ab", "a", "AB", "b", "a"], ["m|n", "m", "n", "m|n"], ["x+", "xx", "x+", "x"],
+]
+
+
+def run_special(ex, case):
+    """string selectors that are literally names of the table, on tables whose names interact with the
+    case-insensitive full-match regular-expression semantics"""
+    xd = get_xdeps("pure", "start_set_only")
+    names = SPECIAL_TABLES[case["table"]]
+    t, data = make_table(ex, xd, names)
+    # warm the name cache the way earlier lookups would
+    for nm in names[:2]:
+        try:
+            t.rows.get_index(nm)
+        except (KeyError, IndexError):
+            pass
+    sels = []
+    for nm in dict.fromkeys(names):
+        for rx in (nm, nm.upper(), nm.lower(), nm + "::0", nm + "::1", nm + "::-1", nm + ">>1", nm + "<<1", nm.upper() + "::0"):
+            if rx not in sels:
+                sels.append(rx)
+    for rx in sels:
+        try:
+            ref = ref_regex(names, rx)
+        except re.error:
+            continue
+        d1 = f"regex {rx!r}"
+        det = {"index_column": names, "selector": d1}
+        note(ex, "names_as_selectors")
+        # precedence of the library: 'name::count' whose name part is literally a name of the index column is
+        # the addressing form of the Table docstring ('name::count<<offset') and resolves that exact name; only
+        # otherwise is the name part a pattern.  The property's quantifier (3-name alphabets) never has a literal
+        # name that, read as a pattern, matches another name, so it does not fix this case: the reference follows
+        # the precedence here.  Selectors WITHOUT a count are patterns, whatever names the table holds.
+        m = re.fullmatch(r"(.*?)::([+-]?\d+)((<<|>>)([+-]?\d+))?", rx)
+        if m and m.group(1) in names and isinstance(ref, list):
+            off = 0 if not m.group(3) else (-int(m.group(5)) if m.group(4) == "<<" else int(m.group(5)))
+            j = occ_index(names, m.group(1), int(m.group(2)))
+            if j is not None:
+                ref = [j + off] if 0 <= j + off < len(names) else "outside"
+                note(ex, "literal_name_with_count")
+        idx1 = resolve(ex, t, data, rx, ref, f"rows[{d1}]", det)
+        if idx1 == "failed":
+            return
+        if idx1 is not None:
+            n = len(names)
+            try:
+                ind = [int(i) % n for i in np.atleast_1d(t.rows.indices[rx])]
+                msk = [i for i, b in enumerate(t.rows.mask[rx]) if b]
+            except (Abort, Inconclusive):
+                raise
+            except Exception as e:
+                ex.fail(f"rows.indices/mask[{d1}] raised {type(e).__name__}: {e}", det)
+                return
+            if ind != idx1 or msk != sorted(set(idx1)):
+                ex.fail(f"rows.indices[{d1}] = {ind} / rows.mask = {msk} but rows[...] selects {idx1}", det)
+                return
+
+
 def run_case(ex, case):
     if case.get("mode") == "typed":
         return run_typed(ex, case)
+    if case.get("mode") == "special":
+        return run_special(ex, case)
     xd = get_xdeps("pure", "start_set_only")
     names = case["pattern"]
     n = len(names)
@@ -468,6 +532,8 @@ def cases(tier):
         nsel = 2 * n + 5 + 2 ** n + 3 + 20 + 9 + 8
         for s1 in range(nsel):
             out.append({"pattern": pat, "nan": nan, "s1": s1, "s2list": ["range lo:hi", "range :hi", "range lo::", "mask"], "compose": n <= 3})
+    for k in range(len(SPECIAL_TABLES)):
+        out.append({"mode": "special", "table": k})
     for dt, pool in TYPED_POOLS.items():
         maxlen = 3 if tier == "quick" else 4
         for n in range(1, maxlen + 1):
